@@ -262,7 +262,7 @@ func genC19(c *Ctx) {
 	}
 	i := 0
 	var lines []string
-	for k := 0; k < c.scale(24, 600) && !c.stop(); k++ {
+	for k := 0; k < c.scale(120, 2500) && !c.stop(); k++ {
 		i++
 		kind := []string{"ufs-workers", "conn-churn", "flush-mix", "ufs-workers"}[k%4]
 		line := fmt.Sprintf("lifejudge C19 %s seed=%d", kind, i)
